@@ -95,7 +95,12 @@ def run(prog: Program, ctx: Ctx) -> None:  # noqa: PLR0912,PLR0915
                 attrs[k] = lazy(boom)
         else:
             attrs["kind"] = K[kind]
-        return Obj(None, attrs, label=label or kind)
+        o = Obj(None, attrs, label=label or kind)
+        if broken:
+            o.attrs["final_target"] = lazy(boom)
+        else:
+            o.attrs["final_target"] = o  # a resolved alias standing for its target (the table looks at the dispatch, not at the chain)
+        return o
 
     handler = {"MODULE": "_merge_module_stubs", "CLASS": "_merge_class_stubs", "FUNCTION": "_merge_function_stubs", "ATTRIBUTE": "_merge_attribute_stubs"}
     rows = 0
